@@ -301,6 +301,7 @@ def run(case):
     c = Ctx()
     part = case['part']
     if part == 'gate':
+        _sweep()
         return _run_gate(case)
     try:
         if part == 'dense':
@@ -353,6 +354,18 @@ def _tmpname(tag):
 
 
 _tmpname.k = 0
+
+
+def _sweep():
+    """remove temporary files left behind by workers that crashed (their pid no longer exists)."""
+    import glob
+    for f in glob.glob(os.path.join(TMPDIR, 'c20-*-*.bin')):
+        try:
+            pid = int(os.path.basename(f).split('-')[1])
+            if not os.path.exists('/proc/%d' % pid):
+                os.unlink(f)
+        except (ValueError, OSError):
+            pass
 
 
 def _newvals(tc):
